@@ -379,13 +379,23 @@ pub fn fax_decode(data: &[u8], params: &CCITTFaxDecodeParams) -> Result<Vec<u8>>
     use fax::{Color, decoder::{pels, decode_g4}};
 
     if params.k < 0 {
-        let columns = params.columns as usize;
+        // the decoder works with 16 bit dimensions; /Columns and /Rows are numbers from the file
+        let width = match u16::try_from(params.columns) {
+            Ok(width) if width > 0 => width,
+            _ => bail!("CCITTFaxDecode: unsupported number of columns {}", params.columns)
+        };
+        let height = match u16::try_from(params.rows) {
+            Ok(0) => None,
+            Ok(height) => Some(height),
+            Err(_) => bail!("CCITTFaxDecode: unsupported number of rows {}", params.rows)
+        };
+        let columns = width as usize;
         let rows = params.rows as usize;
 
-        let height = if params.rows == 0 { None } else { Some(params.rows as u16)};
-        let mut buf = Vec::with_capacity(columns * rows);
-        decode_g4(data.iter().cloned(), columns as u16, height, |line| {
-            buf.extend(pels(line, columns as u16).map(|c| match c {
+        // not pre-allocated: columns * rows is what the file claims, not what the data holds
+        let mut buf = Vec::new();
+        decode_g4(data.iter().cloned(), width, height, |line| {
+            buf.extend(pels(line, width).map(|c| match c {
                 Color::Black => 0,
                 Color::White => 255
             }));
